@@ -3211,6 +3211,9 @@ class Trimesh(Geometry3D):
 
         # get metadata
         copied.metadata = copy.deepcopy(self.metadata)
+        # get the data attached to faces and vertices
+        copied.face_attributes.update(copy.deepcopy(self.face_attributes))
+        copied.vertex_attributes.update(copy.deepcopy(self.vertex_attributes))
 
         # make sure cache ID is set initially
         copied._cache.verify()
